@@ -415,7 +415,7 @@ class Check:
         excl = [z3.Not(rt) for _, rt in region_terms]
         res = None
         if arith == 'int':
-            res, model, dt = self.solve_int(list(pc) + excl, goal=[neg])
+            res, model, dt = self.solve_int(list(pc) + excl, goal=[neg], small_first=True)
             if res == 'unsat':
                 rec['translation'] = 'decided in pure integer arithmetic (bit-vectors as integers mod 2^w, quotients by division lemma)'
             elif res != 'sat':
